@@ -247,8 +247,14 @@ func pruneBy(as Assume, extra func(f *paths.Frame, iff *ssa.If, idx int) bool) f
 		if atom == "" {
 			return false
 		}
-		if want, ok := as[atom]; ok && want != truth {
-			return true
+		if want, ok := as[atom]; ok {
+			return want != truth
+		}
+		// wildcard: "err:*" assumes every error test to come out that way
+		if strings.HasPrefix(atom, "err:") {
+			if want, ok := as["err:*"]; ok && want != truth {
+				return true
+			}
 		}
 		return false
 	}
